@@ -243,7 +243,24 @@ Fixpoint run_hsteps (sgn e : bool) (n : nat) (m0 m1 : list (bits * N)) (steps : 
           else
             let '(m1', o) := hstep venc_val (klt_of sgn) e n m1 op in
             obs_sx o :: run_hsteps sgn e n m0 m1' t
-      | None => sx_err "hist step" :: run_hsteps sgn e n m0 m1 t
+      | None =>
+          match s with
+          | SL [SA nm; SN i; c] =>
+              (* ('decode i cell): Unmarshal INTO object i, which may hold entries *)
+              if String.eqb nm "decode" then
+                match cell_sx c with
+                | Some c =>
+                    if (i =? 0)%N then
+                      let '(m0', ok) := hdecode vdec_val e n m0 c in
+                      SA (if ok then "ok" else "err") :: run_hsteps sgn e n m0' m1 t
+                    else
+                      let '(m1', ok) := hdecode vdec_val e n m1 c in
+                      SA (if ok then "ok" else "err") :: run_hsteps sgn e n m0 m1' t
+                | None => sx_err "hist cell" :: run_hsteps sgn e n m0 m1 t
+                end
+              else sx_err "hist step" :: run_hsteps sgn e n m0 m1 t
+          | _ => sx_err "hist step" :: run_hsteps sgn e n m0 m1 t
+          end
       end
   end.
 
@@ -252,11 +269,120 @@ Definition run_hist (a : sx) : sx :=
   | SL [SN n; SB sgn; SB e; SA build; SL kvs; SL steps] =>
       match items_sx kvs with
       | Some l =>
-          let m := if String.eqb build "put" then puts bits_eqb (klt_of sgn) l [] else l in
+          (* 'fput / 'fnew: the object is a struct field; same object *)
+          let m := if String.eqb build "put" || String.eqb build "fput"
+                   then puts bits_eqb (klt_of sgn) l [] else l in
           SL (run_hsteps sgn e (N.to_nat n) m m steps)
       | None => sx_err "hist items"
       end
   | _ => sx_err "hist"
+  end.
+
+(* c05.dec: (n hashmapE cfg vtype cell libs): decode a dictionary whose leaves hold
+   value encodings that exercise the DECODER's state, under a decoder configuration.
+   cfg = 'plain (tlb.Unmarshal) | 'new (NewDecoder()) : no library resolver;
+         'lib | 'zlib | 'debug : a resolver knowing [libs] = ((library-cell-bits target-cell) ...).
+   vtype = 'u32 (inline tlb.Uint32) | 'ref (tlb.Ref[tlb.Uint32]: one reference, which may be
+           an ordinary cell, a library cell or a pruned branch) | 'cell (tlb.Ref[boc.Cell]).
+   Exotic cells are written ('x kind bits) (kind 1 pruned branch, 2 library); inside the
+   abstract cells of the model they are represented by a cell with FIVE references
+   (impossible for a real cell), the fifth carrying the kind.
+   -> ((key value) ...) | 'err *)
+Definition exo_cell (k : N) (b : bits) : cell :=
+  Cell b [Cell [] []; Cell [] []; Cell [] []; Cell [] []; Cell (bits_of 8 k) []].
+Definition exo_kind (c : cell) : N :=
+  match c with
+  | Cell _ [_; _; _; _; Cell kb []] => N_of_bits kb
+  | _ => 0
+  end.
+
+Fixpoint xcell_sx (a : sx) : option cell :=
+  match a with
+  | SL [SA tag; SN k; SBits b] => if String.eqb tag "x" then Some (exo_cell k b) else None
+  | SL [SBits b; SL rs] =>
+      let fix go (l : list sx) : option (list cell) :=
+        match l with
+        | [] => Some []
+        | x :: t => match xcell_sx x, go t with
+                    | Some c, Some cs => Some (c :: cs)
+                    | _, _ => None
+                    end
+        end in
+      match go rs with Some cs => Some (Cell b cs) | None => None end
+  | _ => None
+  end.
+
+Fixpoint sx_xcell (c : cell) : sx :=
+  match c with
+  | Cell b rs =>
+      if (0 <? exo_kind c)%N then SL [SA "x"; SN (exo_kind c); SBits b]
+      else SL [SBits b; SL (map sx_xcell rs)]
+  end.
+
+Definition dctx := option (list (bits * cell)).   (* the resolver, if configured *)
+
+Fixpoint find_lib (libs : list (bits * cell)) (b : bits) : option cell :=
+  match libs with
+  | [] => None
+  | (lb, t) :: r => if bits_eqb lb b then Some t else find_lib r b
+  end.
+
+Definition read32 (c : cell) : option sx :=
+  match c with Cell b _ => if short 32 b then None else Some (SN (N_of_bits (firstn 32 b))) end.
+
+(* Ref[Uint32].UnmarshalTLB: NextRef; pruned branch -> zero value; else
+   decoder.Unmarshal(ref): a library cell is replaced through the resolver *)
+Definition vdec_ref (ctx : dctx) (_ : bits) (rs : list cell) : option sx :=
+  match rs with
+  | [] => None
+  | r :: _ =>
+      if (exo_kind r =? 1)%N then Some (SN 0)
+      else if (exo_kind r =? 2)%N then
+        match ctx with
+        | None => None                        (* "library cell decoding is not configured properly" *)
+        | Some libs =>
+            match r with Cell b _ =>
+              match find_lib libs b with Some t => read32 t | None => None end
+            end
+        end
+      else read32 r
+  end.
+
+(* Ref[boc.Cell]: a library cell is kept as it is under every configuration *)
+Definition vdec_cellref (_ : dctx) (_ : bits) (rs : list cell) : option sx :=
+  match rs with
+  | [] => None
+  | r :: _ => if (exo_kind r =? 1)%N then Some (SL [SBits []; SL []]) else Some (sx_xcell r)
+  end.
+
+Definition vdec_u32 (_ : dctx) (l : bits) (_ : list cell) : option sx :=
+  if short 32 l then None else Some (SN (N_of_bits (firstn 32 l))).
+
+Fixpoint libs_sx (l : list sx) : option (list (bits * cell)) :=
+  match l with
+  | [] => Some []
+  | SL [SBits b; c] :: t =>
+      match xcell_sx c, libs_sx t with
+      | Some c, Some r => Some ((b, c) :: r)
+      | _, _ => None
+      end
+  | _ => None
+  end.
+
+Definition run_dec (a : sx) : sx :=
+  match a with
+  | SL [SN n; SB e; SA cfg; SA vt; c; SL libs] =>
+      match xcell_sx c, libs_sx libs with
+      | Some c, Some libs =>
+          let ctx : dctx :=
+            if String.eqb cfg "plain" || String.eqb cfg "new" then None else Some libs in
+          let vd := if String.eqb vt "u32" then vdec_u32
+                    else if String.eqb vt "ref" then vdec_ref else vdec_cellref in
+          let r := if e then decode_e (vd ctx) (N.to_nat n) c else decode (vd ctx) (N.to_nat n) c in
+          sx_res (fun m => SL (map (fun kv => SL [SBits (fst kv); snd kv]) m)) r
+      | _, _ => sx_err "dec cell"
+      end
+  | _ => sx_err "dec"
   end.
 
 Definition run (name : string) (a : sx) : sx :=
@@ -268,4 +394,5 @@ Definition run (name : string) (a : sx) : sx :=
   else if is "c05.ops" then run_ops a
   else if is "c05.addr" then run_addr a
   else if is "c05.hist" then run_hist a
+  else if is "c05.dec" then run_dec a
   else sx_err "unknown case kind".
